@@ -327,6 +327,38 @@ def o145(ctx):
             ctx.finding(q2, fulls[0].node, "the returned subvolume must have the requested shape", fulls[0].node, m2)
 
 
+def o145_crop(ctx):
+    """crop: the centre of the window is crop_coord as given (the same meaning as in extract_subvolume / place_object / rotate: the voxel that
+    becomes voxel N//2 of the result), the box centre by default"""
+    q = CM + "crop"
+    m, fn = ctx.prog.func(q)
+    ctx.touched(q)
+    gcf = lambda it_, a, k, n, f: a[0]  # get_correct_format of a 3-vector: the vector (its own obligation: O13.6 / O12.6)
+    for given in (True, False):
+        it = Interp(ctx.prog, no_inline=("cryomap.get_start_end_indices",), summaries=dict(SUMM, **{"cryocat.cryomask.get_correct_format": gcf}),
+                    assume=assume_map({"crop_coord is None": not given, "output_file is not None": False}))
+        vol = Unk(sym("volume"))
+        vol.rank = 3
+        c_ = Arr([sym("c0"), sym("c1"), sym("c2")], 1)
+        n_ = Arr([sym("N0"), sym("N1"), sym("N2")], 1)
+        it.run(q, [vol, n_], {"crop_coord": c_ if given else K(None)})
+        wins_ = [e for e in it.events if e.kind == "call" and e.name == "cryocat.cryomap.get_start_end_indices" and e.fn == q]
+        if len(wins_) != 1:
+            raise Unsupported("crop: call of get_start_end_indices not recognised", fn)
+        got = wins_[0].arg(0)
+        ctx.count(1, {"crop_coord given": given, "window centre": tm.show(to_term(got))[:100] if got is not None else None})
+        if given:
+            if got is None or to_term(got) != to_term(c_):
+                ctx.finding(q, wins_[0].node, "crop changes the requested centre before the window is computed "
+                            f"({tm.show(to_term(got))[:80] if got is not None else None}): crop_coord is the centre of the new box (the voxel that becomes "
+                            "voxel N//2 of the result), as in extract_subvolume and place_object", wins_[0].node, m)
+        else:
+            a_ = got if isinstance(got, Arr) else None
+            ok_ = a_ is not None and len(a_.cols) == 3 and all(cc_ == mk("floordiv", sym(f"volume.n{k_}"), const(2)) for k_, cc_ in enumerate(a_.cols))
+            if not ok_:
+                raise Unsupported(f"crop: default centre (shape // 2) not recognised: {tm.show(to_term(got))[:80] if got is not None else None}", wins_[0].node)
+
+
 def o144(ctx):
     q = CM + "symmetrize_volume"
     m, fn = ctx.prog.func(q)
@@ -386,6 +418,7 @@ def _obligations():
         Obligation("O14.3", "shift_positions uses the same active convention: shift += R*s with the particle's own orientation (shared with C05)",
                    _c05.o54, floor=6),
         Obligation("O14.5", "get_start_end_indices closed forms; extract_subvolume fills with the volume mean", o145, floor=14),
+        Obligation("O14.6", "crop: the window is centred on crop_coord as given (box centre by default)", o145_crop, floor=2),
     ]
 
 
